@@ -46,8 +46,20 @@ def fixed_names(n, out):
     return out
 
 
+def dump_peg():
+    """the live parser rrel.parse builds (ParserPython(rrel_standalone, reduce_tree=False)), walked by tools/pegdump.py"""
+    import os
+    sys.path.insert(0, os.path.dirname(os.path.dirname(os.path.abspath(__file__))))
+    import pegdump
+    from arpeggio import ParserPython
+    return pegdump.dump_parser(ParserPython(R.rrel_standalone, reduce_tree=False)).to_json()
+
+
 def main():
     payload = json.load(sys.stdin)
+    if payload.get("mode") == "dump":
+        json.dump(dump_peg(), sys.stdout)
+        return
     out = []
     for text in payload["texts"]:
         try:
